@@ -72,7 +72,7 @@ pub fn run(tier: Tier) -> i32 {
             rep.violation("noise-stats", format!("unvoiced excitation over {} samples has mean {} variance {} (want 0 / 1)", n, mean, var), json!({"frames": 1, "fperiod": n, "lf0": "nodata"}));
         }
     }
-    par_for(cells.len() * 64, 1, |job| {
+    rep.par_for(cells.len() * 64, 1, "C07 part 1", |job| {
         let (rate, fp) = cells[job / 64];
         let ab = job % 64;
         let (a, b) = (ab / 8, ab % 8);
